@@ -119,6 +119,18 @@ func main() {
 	if err != nil {
 		die("%v", err)
 	}
+	// files ADDED to the build (they do not exist in the repository): exported
+	// access to internal test seams that zap's own tests use
+	extra := map[string]string{
+		"zsim_exit_export.go": exitExport,
+	}
+	for name, src := range extra {
+		dst := filepath.Join(*out, name)
+		if err := os.WriteFile(dst, []byte(src), 0o644); err != nil {
+			die("%v", err)
+		}
+		replace[filepath.Join(*repo, name)] = dst
+	}
 	js, _ := json.MarshalIndent(map[string]any{"Replace": replace}, "", " ")
 	if err := os.WriteFile(filepath.Join(*out, "overlay.json"), js, 0o644); err != nil {
 		die("%v", err)
@@ -126,3 +138,16 @@ func main() {
 	sort.Strings(redirected)
 	fmt.Printf("overlay: %d files redirected: %s\n", len(redirected), strings.Join(redirected, " "))
 }
+
+const exitExport = `// Added to package zap by the simulation overlay only; not part of the repository.
+package zap
+
+import "go.uber.org/zap/internal/exit"
+
+// ZsimStubExit replaces the process exit used by the default Fatal action
+// with a recorder (the same stub zap's own tests use) until unstub is called.
+func ZsimStubExit() (unstub func(), state func() (exited bool, code int)) {
+	s := exit.Stub()
+	return s.Unstub, func() (bool, int) { return s.Exited, s.Code }
+}
+`
